@@ -95,9 +95,18 @@ class FreeDom(ValueDomain):
     def kill(self, st, key):
         return self.forget(ValueDomain.kill(self, st, key), key, own=True)
 
+    @staticmethod
+    def the_sym(v):
+        """the one object a value may denote (NULL is allowed beside it: releasing / testing NULL is harmless)"""
+        if not isinstance(v, AVal) or v.kind != "fin":
+            return None
+        objs = [x for x in v.s if isinstance(x, int) and x >= SYM0]
+        rest = [x for x in v.s if not (isinstance(x, int) and x >= SYM0) and x != 0]
+        return objs[0] if len(objs) == 1 and not rest else None
+
     def release(self, st, v, call, what):
-        s = v.single() if isinstance(v, AVal) else None
-        if s is None or s < SYM0:
+        s = self.the_sym(v)
+        if s is None:
             return st
         F = self.freed(st)
         if s in F:
@@ -164,8 +173,8 @@ class FreeDom(ValueDomain):
             if b is None:
                 continue
             v = self.eval(b, st)
-            s = v.single() if isinstance(v, AVal) else None
-            if s is not None and s >= SYM0 and s in F:
+            s = self.the_sym(v)
+            if s is not None and s in F:
                 self.uaf.append((x, s, st))
 
     def on_elem(self, elem, st, blk, idx):
@@ -362,18 +371,18 @@ def check(ctx, prog, rule, scope):
             seen = set()
             for call, s, st, what in dom.reports:
                 k = syms["s2k"].get(s)
-                obj = key_str(k) if isinstance(k, tuple) and k[0] != "call" else "the object allocated at line %s" % (k[1] if k else "?")
-                site = "%s:%s" % (call.get("fn") or "call", obj)
+                obj = key_str(k) if isinstance(k, tuple) and k[0] != "call" else "the object returned by %s()" % (k[2] if k else "?")
+                site = "%s" % what.split(",")[0][:70]
                 if site in seen:
                     continue
                 seen.add(site)
-                ctx.fail(rule, name, site, "%s, but `%s` has already been released on this path (double free)" % (what, obj),
+                ctx.fail(rule, name, site, "%s, but %s has already been released on this path (double free)" % (what, obj),
                          fn=fn, line=call.get("l", fn.line), inst=inst)
         if dom.uaf:
             seen = set()
             for x, s, st in dom.uaf:
                 k = syms["s2k"].get(s)
-                obj = key_str(k) if isinstance(k, tuple) and k[0] != "call" else "the object allocated at line %s" % (k[1] if k else "?")
+                obj = key_str(k) if isinstance(k, tuple) and k[0] != "call" else "the object returned by %s()" % (k[2] if k else "?")
                 site = "use:%s" % canon(x)[:50]
                 if site in seen:
                     continue
